@@ -92,8 +92,16 @@ func New(cfg *api.Config) (api.NodeDB, error) {
 		return nil, fmt.Errorf("mkvs/badger: failed to load metadata: %w", err)
 	}
 
-	// Cleanup any multipart restore remnants, since they can't be used anymore.
-	if err = db.cleanMultipartLocked(true); err != nil {
+	// Cleanup any multipart restore remnants, since they can't be used anymore. In case the restore
+	// has already been finalized (e.g. we were interrupted after finalization but before the log of
+	// restored nodes was cleared), the restored nodes must be kept and only the log is removed.
+	removeNodes := true
+	if lastFinalizedVersion, exists := db.meta.getLastFinalizedVersion(); exists {
+		if mv := db.meta.getMultipartVersion(); mv != multipartVersionNone && mv == lastFinalizedVersion {
+			removeNodes = false
+		}
+	}
+	if err = db.cleanMultipartLocked(removeNodes); err != nil {
 		_ = db.db.Close()
 		return nil, fmt.Errorf("mkvs/badger: failed to clean leftovers from multipart restore: %w", err)
 	}
